@@ -62,6 +62,9 @@ structure Obs where
   published : Bool
   /-- the server has closed the connection afterwards -/
   closed : Bool
+  /-- media was received from the session BEFORE the response to this request (on the WSP data
+      channel, whose order against the control channel is not defined: at any time during it) -/
+  media : Bool := false
   deriving Repr, Inhabited
 
 /-- the monitor's memory: the phase and the resources seen after the previous request -/
@@ -156,11 +159,22 @@ def mstep (f : Flavour) (st : MState) (o : Obs) : Except String MState :=
   else if !o.sidOk then .error "session-id-missing"
   else mstepResp f st o
 
+/-- "No media is sent before a successful PLAY": media that precedes the response to a request
+    belongs to a session that was already playing when the request was made.  (On WSP the consumer
+    is attached while the PLAY is handled and the data channel is a connection of its own, so there
+    media may also accompany the PLAY that is answered 200.) -/
+def mediaOk (f : Flavour) (st : MState) (o : Obs) : Bool :=
+  !o.media || st.phase == .playing || (f == .wsp && !o.hangup && o.method == .play && o.code == 200)
+
+/-- One observation against the automaton, media included. -/
+def mguard (f : Flavour) (st : MState) (o : Obs) : Except String MState :=
+  if !mediaOk f st o then .error "media-before-play" else mstep f st o
+
 /-- run the monitor over a whole observed dialogue -/
 def mrun (f : Flavour) : MState → List Obs → Except String MState
   | st, [] => .ok st
   | st, o :: os =>
-    match mstep f st o with
+    match mguard f st o with
     | .ok st' => mrun f st' os
     | .error c => .error c
 
@@ -180,7 +194,7 @@ def verdict (f : Flavour) (os : List Obs) : String :=
 def badIndex (f : Flavour) : MState → List Obs → Nat → Option Nat
   | _, [], _ => none
   | st, o :: os, i =>
-    match mstep f st o with
+    match mguard f st o with
     | .ok st' => badIndex f st' os (i + 1)
     | .error _ => some i
 
